@@ -29,6 +29,8 @@ def main(argv=None):
     ap.add_argument("--no-evidence", action="store_true")
     args = ap.parse_args(argv)
     seed = int(os.environ.get("VERIF_SEED", "0") or 0)
+    if args.tier == "thorough":
+        os.environ.setdefault("SX_CROSSCHECK", "1")  # thorough: a sample of discharged VCs is re-decided by two other solver binaries
 
     from . import runner
 
@@ -96,6 +98,10 @@ def main(argv=None):
             }
             if "per_params" in res:
                 row["explorations"] = res["per_params"]
+            if res.get("dumped"):
+                row["second_solver_crosscheck"] = runner.crosscheck(res["dumped"])
+                if row["second_solver_crosscheck"]["disagreements"]:
+                    harness_errors.append("%s %s: solver disagreement %s" % (hn, p, row["second_solver_crosscheck"]["disagreements"]))
             per_h.append(row)
             print(
                 "%-6s %-40s paths=%d reached=%d discharged=%d trivial=%d violated=%d exc=%d unsup=%d unknown=%d queries=%d solver=%.1fs wall=%.1fs"
